@@ -32,6 +32,7 @@ T = [
  ("fix: un-parsing semantic CoAP options mis-encodes", ["C19"], "length 12 -> OverflowError, delta 13 without extended byte, 16-bit extensions little-endian, empty value field emitted"),
  ("fix: PacketParser.unparse reads .id", ["C19"], "AttributeError on (id, value) tuples; payload entry dropped"),
  ("fix: the front end compresses for the uplink direction", ["C15", "C18"], "SCHC.compress used the Up/Bi descriptors, SCHC.decompress all descriptors: a rule with a Dw descriptor did not round-trip through the front end (found by the C15 check under seed 2)"),
+ ("fix: compute the UDP checksum after the checksum of an SCTP packet", ["C09", "C01"], "UDP datagram to port 132 carrying an SCTP packet (predictive parsers), rule computing both the UDP and the SCTP checksum: the UDP checksum was computed over the zeroed SCTP checksum placeholder (found when UDP port 132 entered the packet generators)"),
 ]
 log = subprocess.run(['git', '-C', '/repo', 'log', '--reverse', '--format=%h\t%s'], stdout=subprocess.PIPE).stdout.decode().strip().split('\n')
 fixed, used = [], set()
